@@ -10,10 +10,24 @@ import shutil
 import numpy as np
 
 NA = 11   # > 9 atoms so that XTC uses its compressed path
+CELL = True
+# file "shapes" every reader-side check is replayed on: (atom count, unit cell written).  The second one has an atom count that
+# is a multiple of 10 (full text lines in mdcrd / rst7 style formats) and no box records where the format allows that.
+SHAPES = [(11, True), (20, False)]
+NEEDS_CELL = ("lammpstrj", "dtr")
 
 
-def topology(n_atoms=NA):
+def set_shape(k, ext=""):
+    """select the shape used by topology()/coords()/trajectory()/write_file() defaults in this process"""
+    global NA, CELL
+    NA, CELL = SHAPES[k]
+    if not CELL and ext.replace(".gz", "") in NEEDS_CELL:
+        CELL = True
+
+
+def topology(n_atoms=None):
     import mdtraj as md
+    n_atoms = NA if n_atoms is None else n_atoms
     top = md.Topology()
     ch = top.add_chain()
     for i in range(n_atoms):
@@ -22,7 +36,8 @@ def topology(n_atoms=NA):
     return top
 
 
-def coords(frames, n_atoms=NA, atoms=None):
+def coords(frames, n_atoms=None, atoms=None):
+    n_atoms = NA if n_atoms is None else n_atoms
     frames = list(frames)
     atoms = list(range(n_atoms)) if atoms is None else list(atoms)
     xyz = np.zeros((len(frames), len(atoms), 3), dtype=np.float32)
@@ -33,8 +48,10 @@ def coords(frames, n_atoms=NA, atoms=None):
     return xyz
 
 
-def trajectory(n_frames, n_atoms=NA, cell=True, first=0):
+def trajectory(n_frames, n_atoms=None, cell=None, first=0):
     import mdtraj as md
+    n_atoms = NA if n_atoms is None else n_atoms
+    cell = CELL if cell is None else cell
     fr = list(range(first, first + n_frames))
     kw = {}
     if cell:
@@ -81,11 +98,12 @@ def rm(path):
         os.unlink(path)
 
 
-def write_file(path, n_frames, n_atoms=NA, cell=True):
+def write_file(path, n_frames, n_atoms=None, cell=None):
     """save through mdtraj, then confirm by a full load that the file really holds frames 0..n-1
     (the writers are themselves under test in C01/C19; a file that does not verify is not used)."""
     import mdtraj as md
     rm(path)
+    n_atoms = NA if n_atoms is None else n_atoms
     t = trajectory(n_frames, n_atoms, cell)
     t.save(path)
     ext = path.split(".", 1)[1]
